@@ -75,7 +75,31 @@ def run_unit(unit, rlimit=None, timeout=600, extra=()):
         imports += new
     if imports:
         res["auto_imports"] = ["%s::%s" % x for x in imports]
+    # de-flaking: an obligation that really fails cannot be discharged under any solver seed, so a reported failure is
+    # confirmed by a second run with another seed and only the obligations failing in BOTH runs are kept; an obligation that
+    # fails once and verifies once is solver instability: undecided, never a violation
+    if res["status"] == "failed":
+        res2 = run_unit_once(unit, rlimit, timeout, tuple(extra) + ("--smt-option", "smt.random_seed=%d" % RESEED), tuple(imports))
+        keys2 = set((f["function"], f["message"], f["clause"]) for f in res2["failures"])
+        both = [f for f in res["failures"] if (f["function"], f["message"], f["clause"]) in keys2]
+        flaky = [f for f in res["failures"] if (f["function"], f["message"], f["clause"]) not in keys2]
+        res["reseed"] = {"seed": RESEED, "status": res2["status"], "confirmed": len(both), "not_reproduced": len(flaky)}
+        if res2["status"] == "failed":
+            res["failures"] = both
+            for f in flaky:
+                res["undecided"].append({"kind": "unstable", "obligation": f["obligation"], "message": "failed under the default seed only (solver instability): " + f["message"], "clause": f["clause"]})
+            if not both:
+                res["status"] = "undecided"
+        else:
+            # the second run verified everything (or was undecided): nothing is confirmed
+            for f in res["failures"]:
+                res["undecided"].append({"kind": "unstable", "obligation": f["obligation"], "message": "failed under the default seed, second run %s: %s" % (res2["status"], f["message"]), "clause": f["clause"]})
+            res["failures"] = []
+            res["status"] = "undecided"
     return res
+
+
+RESEED = 7
 
 
 def run_unit_once(unit, rlimit=None, timeout=600, extra=(), extra_imports=()):
@@ -106,12 +130,25 @@ def run_unit_once(unit, rlimit=None, timeout=600, extra=(), extra_imports=()):
         cmd += ["--rlimit", str(rlimit)]
     cmd += list(extra)
     res["cmd"] = " ".join(cmd)
+    # own process group, killed as a whole on timeout: z3 children otherwise survive a killed rust_verify and keep a core busy
+    import signal
+    pp = subprocess.Popen(cmd, cwd=os.path.join(U.BUILD, "units"), stdout=subprocess.PIPE, stderr=subprocess.PIPE, text=True, start_new_session=True)
     try:
-        p = subprocess.run(cmd, cwd=os.path.join(U.BUILD, "units"), capture_output=True, text=True, timeout=timeout)
+        so, se = pp.communicate(timeout=timeout)
     except subprocess.TimeoutExpired:
+        try:
+            os.killpg(pp.pid, signal.SIGKILL)
+        except ProcessLookupError:
+            pass
+        pp.communicate()
         res["undecided"].append({"kind": "timeout", "message": "verus exceeded %ds" % timeout})
         res["wall_s"] = time.time() - t0
         return res
+
+    class _P:
+        pass
+    p = _P()
+    p.stdout, p.stderr, p.returncode = so, se, pp.returncode
     lines = g.text.split("\n")
     out = {}
     try:
